@@ -3,6 +3,7 @@ import Dcg.Proofs.Graphql
 import Dcg.Gen.GraphqlTables
 import Dcg.Proofs.GraphqlBridge
 import Dcg.Proofs.GraphqlBridgeOp
+import Dcg.Proofs.GraphqlOrder
 /-
 C17 — the shape of a GraphQL schema is mirrored by the generated models.
 Only property theorems live here; helper lemmas are in Dcg/Proofs/Graphql.lean.
@@ -272,5 +273,243 @@ theorem rendered_hint_all_spellings (unionOp stdColl : Bool) (isEnum : List Char
 example : okName "Any".toList = false ∧ okName "Date".toList = true := by decide
 
 end rendering
+
+/-! ### unions: what the alias line evaluates, and when it is executed
+
+`Name: TypeAlias = <right-hand side>` is executed when the module is imported (member annotations are
+not: the module starts with `from __future__ import annotations`). `Model.GraphqlOrder`:
+* `unionTemplate` (GENERATED from `model/template/Union.jinja2` on every run): the `{% if %}` tree and
+  every `{{ … }}` site with the Python lexical state it is in; `unionTemplateVars` (GENERATED from
+  `parse_union`): the template variables the parser sets from its options;
+* `occs env members tpl`  the member occurrences of the rendered alias, each eager (code) or deferred
+                           (inside a string literal: a forward reference);
+* `emitOrder order defs`  the order of the module's definitions: `parse_raw` visits the kinds in
+                           `parse_order`, `sort_data_models` places a model once its reference classes
+                           (interfaces; enum-typed fields) are placed, pass after pass;
+* `early` / `late`        placed by the first pass / kept back by it;
+* `definedBefore l a b`   `a` is bound when the line defining `b` runs.
+The real alias text (eager and quoted names by `ast`) and the real order of the module's definitions
+are compared with `occs` and `emitOrder` on every run (vlib/props/c17_order.py). -/
+
+section ordering
+open Dcg.Model.GraphqlOrder Dcg.Proofs.GraphqlOrder
+
+/-- the kinds of `GraphQLParser.parse_order` -/
+def parseKinds : List Kind := parseOrder.filterMap Kind.ofString
+
+/-- The translator understood the whole Union template (every test; no expression other than the class
+name and member names in code), so it renders for every non-empty member list and every setting of
+the template variables: the theorems below do not hold vacuously. -/
+theorem union_template_understood (env : String → Bool) (members : List Name) (hne : members ≠ []) :
+    tplKnown unionTemplate = true ∧ safeOther unionTemplate = true ∧
+    ∃ os, occs env members unionTemplate = some os :=
+  have h : tplKnown unionTemplate = true := by decide
+  ⟨h, by decide, occs_total env members hne unionTemplate h⟩
+
+/-- A union of TWO OR MORE members never looks a member up at import: whatever the template variables
+are (description, anything `parse_union` or the user passes in `extra_template_data`) and however many
+members there are, every member of the rendered alias sits inside a string literal — a forward
+reference. So the alias cannot raise NameError, wherever the member classes are emitted.
+(From the side condition `safeMulti unionTemplate`, decided by the kernel on the generated template.) -/
+theorem union_alias_members_quoted (env : String → Bool) (members : List Name) (h2 : 2 ≤ members.length)
+    (os : List Occ) (h : occs env members unionTemplate = some os) :
+    (∀ o ∈ os, o.eager = false) ∧ eagerMembers os = [] :=
+  have hs : safeMulti unionTemplate = true := by decide
+  have h1 := safeMulti_sound env members h2 unionTemplate os hs h
+  ⟨h1, eagerMembers_nil_of_none_eager os h1⟩
+
+/-- non-vacuity: three members, with and without a description — all quoted, in order -/
+example :
+    let ms := ["Aa".toList, "Bb".toList, "Cc".toList]
+    (occs (fun _ => false) ms unionTemplate).map quotedMembers = some ms ∧
+    (occs (fun _ => false) ms unionTemplate).map eagerMembers = some [] ∧
+    (occs (fun v => v == "description") ms unionTemplate).map quotedMembers = some ms := by decide
+
+/-- The alias lists EXACTLY the members: with two or more members the rendered alias contains — on
+every path, whatever the template variables are — every member once, in the order of
+`union_object.types`, and no other expression; with one member, exactly that member.
+(From the side conditions `shapeA know2 unionTemplate = [eachMember]` and `shapeA know1 unionTemplate ∈
+{[firstMember], [eachMember]}`, decided by the kernel on the generated template.) -/
+theorem union_alias_lists_exactly_members (env : String → Bool) (members : List Name)
+    (os : List Occ) (h : occs env members unionTemplate = some os) :
+    (2 ≤ members.length → os.map Occ.forget = members.map some) ∧
+    (∀ m, members = [m] → os.map Occ.forget = [some m]) := by
+  constructor
+  · intro h2
+    have hs : shapeA know2 unionTemplate = some [.eachMember] := by decide
+    have := shapeA_sound know2 env members (know2_trueOf _ h2) unionTemplate _ os hs h
+    simpa [siteForget] using this
+  · intro m hm
+    subst hm
+    have hs : (shapeA know1 unionTemplate == some [.firstMember] || shapeA know1 unionTemplate == some [.eachMember]) = true := by
+      decide
+    simp only [Bool.or_eq_true, beq_iff_eq] at hs
+    rcases hs with hs | hs
+    · have := shapeA_sound know1 env [m] know1_trueOf unionTemplate _ os hs h
+      simpa [siteForget] using this
+    · have := shapeA_sound know1 env [m] know1_trueOf unionTemplate _ os hs h
+      simpa [siteForget] using this
+
+/-- Whatever the alias evaluates eagerly is one of the union's members (nothing else of the template
+is in code), and the identifiers of its literal text are bound by `DataTypeUnion.DEFAULT_IMPORTS`. -/
+theorem union_alias_eager_names_are_members (env : String → Bool) (members : List Name)
+    (os : List Occ) (h : occs env members unionTemplate = some os) :
+    (∀ n ∈ eagerMembers os, n ∈ members) ∧
+    unionLiteralNames.all (fun n => unionDefaultImports.contains n) = true := by
+  refine ⟨fun n hn => ?_, by decide⟩
+  exact occs_members env members unionTemplate os h n true ((mem_eagerMembers os n).mp hn)
+
+/-- `parse_order` names kinds only, and ends with UNION, which occurs nowhere else in it: every union
+alias is handed to `sort_data_models` after every class. -/
+theorem parse_order_unions_last :
+    parseOrder.all (fun k => (Kind.ofString k).isSome) = true ∧
+    parseKinds = parseKinds.dropLast ++ [.union] ∧ parseKinds.dropLast.contains .union = false ∧
+    (∀ k : Kind, k ≠ .union → k ∈ parseKinds.dropLast) := by
+  refine ⟨by decide, by decide, by decide, ?_⟩
+  intro k hk
+  cases k <;> first | exact absurd rfl hk | decide
+
+/-- Nothing is lost or invented by the ordering: the emitted definitions are the named types of the
+schema, kind by kind. -/
+theorem emit_order_is_permutation (defs : List Def) :
+    List.Perm (emitOrder parseKinds defs) ((results parseKinds defs).map (·.name)) := by
+  have := sortLoop_perm (nodes parseKinds defs).length [] (nodes parseKinds defs)
+  simpa [emitOrder, emit, nodes, List.map_map, Function.comp_def] using this
+
+/-- LATE: a type that the first pass of `sort_data_models` keeps back (one of its interfaces, or the
+enum of one of its fields, is not placed yet when it is visited — e.g. it implements an interface that
+implements an interface visited later) is NOT bound when the alias of ANY union is executed. This is
+why a union alias must not evaluate its members. -/
+theorem late_member_unbound_at_alias (defs : List Def)
+    (hnd : ((nodes parseKinds defs).map (·.name)).Nodup) (u : Def) (hu : u ∈ defs) (huk : u.kind = .union)
+    (m : Name) (hm : late parseKinds defs m = true) :
+    definedBefore (emitOrder parseKinds defs) m u.name = false :=
+  late_unbound parseKinds (by decide) defs hnd u hu huk m hm
+
+/-- EARLY: a class that the first pass places is bound when any union alias is executed. -/
+theorem early_member_bound_at_alias (defs : List Def)
+    (hnd : ((nodes parseKinds defs).map (·.name)).Nodup) (u : Def) (hu : u ∈ defs) (huk : u.kind = .union)
+    (d : Def) (hd : d ∈ defs) (hdk : d.kind ≠ .union) (he : early parseKinds defs d.name = true) :
+    definedBefore (emitOrder parseKinds defs) d.name u.name = true := by
+  have hpk := parse_order_unions_last.2.1
+  rw [hpk] at hnd he ⊢
+  exact early_bound _ defs hnd u hu huk d hd (parse_order_unions_last.2.2.2 d.kind hdk) he
+
+/-- every type of the schema is early or late -/
+theorem member_early_or_late (defs : List Def) (d : Def) (hd : d ∈ defs) :
+    early parseKinds defs d.name = true ∨ late parseKinds defs d.name = true := by
+  refine early_or_late parseKinds defs d ((mem_results parseKinds defs d).mpr ⟨hd, ?_⟩)
+  cases d.kind <;> decide
+
+/-- FULL STRENGTH (kept visible; FALSE of the code, see `single_member_alias_before_member`): every name
+the alias line of a union evaluates at import is bound by then. -/
+def AliasesResolve : Prop :=
+  ∀ (env : String → Bool) (defs : List Def), ((nodes parseKinds defs).map (·.name)).Nodup →
+    ∀ u ∈ defs, u.kind = .union → u.members ≠ [] →
+      (∀ m ∈ u.members, ∃ d ∈ defs, d.name = m ∧ d.kind = .object) →
+      aliasResolves unionTemplate env parseKinds defs u = true
+
+/-- PARTIAL (all schemas, all settings of the template variables, any number of members): the alias of
+a union resolves at import provided that, WHEN THE UNION HAS A SINGLE MEMBER, that member is early.
+(With two or more members nothing is evaluated — `union_alias_members_quoted`; with one member the
+template writes the bare name, which is bound iff the member is early.) -/
+theorem aliases_resolve_partial (env : String → Bool) (defs : List Def)
+    (hnd : ((nodes parseKinds defs).map (·.name)).Nodup) (u : Def) (hu : u ∈ defs) (huk : u.kind = .union)
+    (hne : u.members ≠ [])
+    (hmem : ∀ m ∈ u.members, ∃ d ∈ defs, d.name = m ∧ d.kind = .object)
+    (hsingle : ∀ m, u.members = [m] → early parseKinds defs m = true) :
+    aliasResolves unionTemplate env parseKinds defs u = true := by
+  obtain ⟨_, _, os, hos⟩ := union_template_understood env u.members hne
+  simp only [aliasResolves, hos, List.all_eq_true]
+  intro m hm
+  have hmm := (union_alias_eager_names_are_members env u.members os hos).1 m hm
+  by_cases h2 : 2 ≤ u.members.length
+  · rw [(union_alias_members_quoted env u.members h2 os hos).2] at hm
+    simp at hm
+  · have : ∃ x, u.members = [x] := by
+      match hu' : u.members with
+      | [] => exact absurd hu' hne
+      | [x] => exact ⟨x, rfl⟩
+      | _ :: _ :: _ => rw [hu'] at h2; simp at h2
+    obtain ⟨x, hx⟩ := this
+    have hmx : m = x := by rw [hx] at hmm; simpa using hmm
+    subst hmx
+    obtain ⟨d, hd, hdn, hdk⟩ := hmem m hmm
+    subst hdn
+    exact early_member_bound_at_alias defs hnd u hu huk d hd (by rw [hdk]; decide) (hsingle _ hx)
+
+/-- the schema of known finding C17-single-member-union: `union Uu = Alpha`, `type Alpha implements
+Aged & Base`, `interface Aged implements Base`, `interface Base` (type_map order is lexicographic) -/
+def singleMemberWitness : List Def := [
+  { name := "Aged".toList, kind := .interface, interfaces := ["Base".toList], fieldTypes := ["Uu".toList] },
+  { name := "Alpha".toList, kind := .object, interfaces := ["Aged".toList, "Base".toList], fieldTypes := ["Uu".toList] },
+  { name := "Base".toList, kind := .interface, fieldTypes := ["Uu".toList] },
+  { name := "Boolean".toList, kind := .scalar },
+  { name := "String".toList, kind := .scalar },
+  { name := "Uu".toList, kind := .union, members := ["Alpha".toList] }]
+
+/-- THE FUEL SUFFICES (termination half of the ordering model): when the reference graph of the schema
+is closed and acyclic — every reference of a type (an interface it implements, the enum of a field) is
+a type of the schema of smaller rank; GraphQL validation guarantees it: interfaces cannot implement
+each other in a cycle and an enum refers to nothing — the passes of `sort_data_models` place every
+definition; the fall-back of the loop is never taken, for any number of types. -/
+theorem emit_complete_of_acyclic (defs : List Def) (rank : Name → Nat)
+    (h : ∀ d ∈ defs, ∀ r ∈ refs defs d, r = d.name ∨ ∃ d' ∈ defs, d'.name = r ∧ rank r < rank d.name) :
+    (emit parseKinds defs).2 = true := by
+  apply sortLoop_complete rank _ [] _ (Nat.le_refl _)
+  intro nd hnd r hr
+  obtain ⟨d, hd, rfl⟩ := List.mem_map.mp hnd
+  have hdd := ((mem_results parseKinds defs d).mp hd).1
+  rcases h d hdd r hr with h1 | ⟨d', hd', hn, hlt⟩
+  · exact Or.inl h1
+  · refine Or.inr (Or.inr ⟨{ name := d'.name, refs := refs defs d' }, ?_, hn, hlt⟩)
+    refine List.mem_map.mpr ⟨d', (mem_results parseKinds defs d').mpr ⟨hd', ?_⟩, rfl⟩
+    cases d'.kind <;> decide
+
+/-- non-vacuity: the schema of the refutation below is ranked by the length of … its own chain
+(`Base` 0, `Aged` 1, `Alpha` 2), and is emitted completely -/
+example : (emit parseKinds singleMemberWitness).2 = true ∧
+    ∀ d ∈ singleMemberWitness, ∀ r ∈ refs singleMemberWitness d, r = d.name ∨
+      ∃ d' ∈ singleMemberWitness, d'.name = r ∧
+        (fun n => if n = "Aged".toList then 1 else if n = "Alpha".toList then 2 else 0) r <
+        (fun n => if n = "Aged".toList then 1 else if n = "Alpha".toList then 2 else 0) d.name := by
+  decide
+
+/-- REFUTATION of the full statement (known finding C17-single-member-union): `Aged` is visited before
+`Base`, so it is late, and so is `Alpha`; the alias `Uu: TypeAlias = Alpha` is emitted by the first pass
+and looks `Alpha` up before the class exists. -/
+theorem single_member_alias_before_member :
+    emitOrder parseKinds singleMemberWitness =
+      ["Boolean".toList, "String".toList, "Base".toList, "Uu".toList, "Aged".toList, "Alpha".toList] ∧
+    late parseKinds singleMemberWitness "Alpha".toList = true ∧
+    aliasResolves unionTemplate (fun _ => false) parseKinds singleMemberWitness
+      { name := "Uu".toList, kind := .union, members := ["Alpha".toList] } = false := by decide
+
+theorem aliases_resolve_full_false : ¬ AliasesResolve := by
+  intro h
+  have := h (fun _ => false) singleMemberWitness (by decide)
+    { name := "Uu".toList, kind := .union, members := ["Alpha".toList] } (by decide) rfl (by decide)
+    (by
+      intro m hm
+      simp at hm; subst hm
+      exact ⟨{ name := "Alpha".toList, kind := .object, interfaces := ["Aged".toList, "Base".toList],
+               fieldTypes := ["Uu".toList] }, by decide, rfl, rfl⟩)
+  rw [single_member_alias_before_member.2.2] at this
+  exact absurd this (by decide)
+
+/-- non-vacuity of the partial theorem: the same schema with a second member `Beta`, late member and
+all — the alias resolves because it evaluates nothing; and a single-member union over an early member -/
+example :
+    let defs : List Def := singleMemberWitness.dropLast ++
+      [{ name := "Beta".toList, kind := .object }, { name := "Uu".toList, kind := .union, members := ["Alpha".toList, "Beta".toList] },
+       { name := "Vv".toList, kind := .union, members := ["Beta".toList] }]
+    ((nodes parseKinds defs).map (·.name)).Nodup ∧
+    late parseKinds defs "Alpha".toList = true ∧ early parseKinds defs "Beta".toList = true ∧
+    aliasResolves unionTemplate (fun _ => false) parseKinds defs
+      { name := "Uu".toList, kind := .union, members := ["Alpha".toList, "Beta".toList] } = true ∧
+    aliasResolves unionTemplate (fun _ => false) parseKinds defs
+      { name := "Vv".toList, kind := .union, members := ["Beta".toList] } = true := by decide
+
+end ordering
 
 end Dcg.Props.C17
